@@ -11,7 +11,7 @@ RULE = (
     "fixed_rows(io.StringIO(text, newline='')). Oracle per case: soundness - no exception other than DataFormatError, every "
     "item has its declared width, and the input can be rebuilt from the rows by inserting delimiters the setting permits "
     "(final one optional); completeness - inputs that are records of non-delimiter characters joined by permitted "
-    "delimiters are accepted and cut exactly by the widths. Plus histories: a read abandoned after 1-2 rows (generator closed, dropped or kept) followed by a complete read of another well-formed input. Plus random well-formed files of 5-40 records with one "
+    "delimiters are accepted and cut exactly by the widths. Plus histories: a read abandoned after 1-2 rows (generator closed, dropped or kept) followed by a complete read of another well-formed input. Plus the same texts from streams whose name attribute is None, empty, a number or bytes (spooled temporary files, open(fd)), through fixed_rows and cutplace.rows. Plus random well-formed files of 5-40 records with one "
     "character deleted / inserted / replaced at every offset, read from streams and from real files (utf-8, cp1252). "
     "Cases are distinct by construction (enumeration); all non-empty inputs count as non-trivial."
 )
@@ -102,6 +102,12 @@ def judge(ctx, fixed_rows, errors, text, widths, setting, fields, source=None, t
         error = None
     except errors.DataFormatError as e:
         rows, error = None, e
+        try:
+            str(e)
+        except Exception as e2:  # noqa
+            case = {"text": text, "widths": list(widths), "setting": setting, "source": repr(getattr(source, "name", None))}
+            ctx.violation("C13:error-not-printable:%s" % type(e2).__name__, case, "the data-format error cannot be turned into text", observed=e2)
+            return
     except Exception as e:  # noqa
         case = {"text": text, "widths": list(widths), "setting": setting}
         ctx.violation("C13:escape:%s" % type(e).__name__, case, "fixed_rows failed with something else than a data-format error", expected="rows or DataFormatError", observed=e)
@@ -164,6 +170,9 @@ def run(ctx):
     for i in range(ctx.pick(600, 20000)):
         if ctx.mine(i):
             abandoned_then_fresh(ctx, rowio, errors, ctx.rng("abandon", i))
+    for i in range(ctx.pick(100, 3000)):
+        if ctx.mine(i):
+            judge_named(ctx, rowio, errors, ctx.rng("named", i))
     # ---- fault part: mutations of longer well-formed files
     n = ctx.pick(60, 1500)
     for i in range(n):
@@ -225,6 +234,44 @@ def abandoned_then_fresh(ctx, rowio, errors, rng):
     ctx.case(case, True)
     ctx.count("after-abandoned-read.judged")
     judge(ctx, rowio.fixed_rows, errors, second, widths, second_setting, fields)
+
+
+class OddlyNamedStream(io.StringIO):
+    """A character stream like the ones tempfile.SpooledTemporaryFile (name None), open(fd) (name is the descriptor) or
+    sockets' makefile() hand out: what it is called says nothing about the characters it delivers."""
+
+    def __init__(self, text, name):
+        super().__init__(text, newline="")
+        self.name = name
+
+
+def judge_named(ctx, rowio, errors, rng):
+    """The same text read from an anonymous stream and from streams with odd names: same rows or same kind of refusal."""
+    import cutplace
+    from cutplace import interface
+
+    widths = tuple(rng.randint(1, 3) for _ in range(rng.randint(1, 3)))
+    fields = [("f%d" % k, w) for k, w in enumerate(widths)]
+    total = sum(widths)
+    records = ["".join(rng.choice("abxy") for _ in range(total)) for _ in range(rng.randint(1, 4))]
+    text = "\n".join(records) + "\n"
+    if rng.random() < 0.5:
+        text = text[:-2] + rng.choice(["", "X", "\n\n"])  # short record / wrong delimiter / extra line
+    for name in (None, "", 0, 7, b"bytes.txt"):
+        case = {"text": text, "widths": list(widths), "setting": "\n", "stream_name": repr(name)}
+        ctx.case(case, True)
+        ctx.count("oddly-named-streams.judged")
+        judge(ctx, rowio.fixed_rows, errors, text, widths, "\n", fields, source=OddlyNamedStream(text, name), tag="named")
+        # ... and through the validating reader
+        cid = interface.Cid()
+        cid.read("<c13>", [["D", "Format", "Fixed"], ["D", "Line delimiter", "LF"]] + [["F", n, "", "", str(w), "Text", ""] for n, w in fields])
+        try:
+            rows = list(cutplace.rows(cid, OddlyNamedStream(text, name)))
+            str(rows)
+        except errors.DataError as error:
+            str(error)  # the error has to be printable whatever the stream is called
+        except Exception as error:
+            ctx.violation("C13:escape:reader:%s" % type(error).__name__, case, "reading a character stream with an odd name failed with something else than a data error", observed=error)
 
 
 def judge_mutant(ctx, rowio, errors, text, widths, setting, fields, file_encoding):
